@@ -207,11 +207,21 @@ func (g *genWalker) walk(v reflect.Value, set setter, wh bool) {
 		}
 		end := g.idx + tokenCount(v)
 		g.idx++
+		var kept []int
+		dropped := false
 		for n := 0; n < v.Len(); n++ {
 			el := v.Index(n)
+			if g.sig.has(g.idx, "d") {
+				// near-miss patterns: this element is left out of the pattern
+				g.idx += tokenCount(el)
+				dropped = true
+				continue
+			}
 			if kind == "ValTuple" && g.sig.has(g.idx, "l") && valueLike(dynKind(el)) {
 				ns := reflect.MakeSlice(v.Type(), 0, n+1)
-				ns = reflect.AppendSlice(ns, v.Slice(0, n))
+				for _, m := range kept {
+					ns = reflect.Append(ns, v.Index(m))
+				}
 				ns = reflect.Append(ns, reflect.ValueOf(common.ListOfValuePatternStatement))
 				if !set(ns) {
 					panic("harness: cannot truncate a ValTuple")
@@ -219,7 +229,17 @@ func (g *genWalker) walk(v reflect.Value, set setter, wh bool) {
 				g.idx = end
 				return
 			}
+			kept = append(kept, n)
 			g.walk(el, slotSetter(el), false)
+		}
+		if dropped {
+			ns := reflect.MakeSlice(v.Type(), 0, len(kept))
+			for _, m := range kept {
+				ns = reflect.Append(ns, v.Index(m))
+			}
+			if !set(ns) {
+				panic("harness: cannot shorten a list")
+			}
 		}
 	case reflect.String, reflect.Bool:
 		n := v.Type().Name()
@@ -277,7 +297,20 @@ func opGenMatch(a []string) string {
 	return strconv.FormatBool(common.CheckPatternsMatching([]sqlparser.Statement{p}, st))
 }
 
+// C05.dropgen <stmt> <σ with d actions> → <true|false> <dump of the pattern>   (implementation only: the model is asked
+// with C05.matchtree on the dump)
+func opDropGen(a []string) string {
+	raw := rawOf(a[0])
+	p, ok := generaliseAST(raw, parseSigma(a[1]))
+	if !ok {
+		return core.Err
+	}
+	_, st, _ := parseStmt(raw)
+	return strconv.FormatBool(common.CheckPatternsMatching([]sqlparser.Statement{p}, st)) + " " + treeToken(p)
+}
+
 func init() {
+	core.Register("C05.dropgen", opDropGen)
 	core.Register("C05.gen", opGen)
 	core.Register("C05.genmatch", opGenMatch)
 }
